@@ -129,6 +129,10 @@ func init() {
 			// failed instance left in a pool is still there when the next instance asks for it
 			old := rtdebug.SetGCPercent(-1)
 			defer rtdebug.SetGCPercent(old)
+			// ... but not at the price of running out of memory: with a memory limit the collector still runs when
+			// the heap approaches it (damaged files can make a reader allocate a lot)
+			oldLim := rtdebug.SetMemoryLimit(3 << 30)
+			defer rtdebug.SetMemoryLimit(oldLim)
 		}
 		for _, k := range []int{2, 5, 12} {
 			if !withFailures {
